@@ -624,6 +624,17 @@ class MixtureGen(object):
                     unit = rng.choice(list(LENGTH_M))
                 q = zero_text(rng) if i == zero_at else self.amount(mode, unit)
                 parts.append({'q': q, 'unit': unit, 'gap': rng.choice(['', ' ']), 'node': node})
+        if len(parts) > 1 and rng.random() < 0.1:
+            # the same compound twice in a row at two different densities (two batches, two phases of one material):
+            # they are two components, each with its own density
+            i = rng.randrange(1, len(parts))
+            prev, cur = parts[i - 1].get('node'), parts[i].get('node')
+            if prev and cur and prev['t'] == 'c' and cur['t'] == 'c' and 'rep' not in parts[i] and 'rep' not in parts[i - 1]:
+                twin = dict(prev)
+                twin['tag'] = self.density_tag()
+                twin['text'] = twin['bare'] + tag_text(twin['tag'])
+                if not (twin['text'][0] in '0123456789.' and not cur['text'][0] in '0123456789.'):
+                    parts[i]['node'] = twin
         out = {'t': 'm', 'mode': mode, 'parts': parts,
                'seps': [rng.choice(PARTSEPS) for _ in range(len(parts) - 1)],
                'pad': rng.choice(['', '', ' ']), 'tag': None}
